@@ -526,10 +526,23 @@ def main(argv):
             kinds = cfg.get("violation_kinds")  # None = every kind belongs to this property
             for v0 in verdicts:
                 if v0["v"] == "violation":
+                    mine = 0
                     for v in expand_violation(v0):
+                        if v["kind"].startswith("mismatch:"):
+                            continue
                         if kinds is not None and not any(v["kind"].startswith(k) for k in kinds):
                             continue
+                        mine += 1
                         violations.append(dict(v, harness=h["cmd"], bin=binpath))
+                    if not mine:
+                        # only other properties' predicates fired on this history; if the model
+                        # disagrees with the implementation as well, this property is no longer
+                        # shown to hold on it
+                        for (k, st) in v0.get("kinds", []):
+                            if k.startswith("mismatch:"):
+                                problems.append(("mismatch", "model and implementation disagree (harness %s, step %d, %s)" % (
+                                    h["cmd"], st, k[len("mismatch:"):]),
+                                    dict(v0, v="mismatch", step=st, what=k[len("mismatch:"):], harness=h["cmd"], bin=binpath)))
                 elif v0["v"] == "mismatch":
                     problems.append(("mismatch", "model and implementation disagree (harness %s, step %d, %s)" % (
                         h["cmd"], v0["step"], v0["what"]), dict(v0, harness=h["cmd"], bin=binpath)))
@@ -572,6 +585,8 @@ def main(argv):
                 if w0["v"] != "violation":
                     continue
                 for w in expand_violation(w0):
+                    if w["kind"].startswith("mismatch:"):
+                        continue
                     if (kinds is None or any(w["kind"].startswith(k) for k in kinds)) \
                             and not known_match(pid, w["kind"], known):
                         hit = w
